@@ -23,6 +23,17 @@ def recipient(name, as_subkey=True):
     return k, m
 
 
+_PUBS = {}
+
+
+def longlived_pub(k):
+    """one public key object per private key object for the life of the process (what an application that keeps a recipient's key does);
+    k.pubkey itself builds a new twin on every access"""
+    if id(k) not in _PUBS:
+        _PUBS[id(k)] = (k, k.pubkey)
+    return _PUBS[id(k)][1]
+
+
 def body_of(desc, rng):
     b = desc['body']
     if b == 'empty':
